@@ -13,6 +13,7 @@ import (
 	"testing"
 	"time"
 
+	"github.com/libp2p/go-libp2p/core/network"
 	"github.com/libp2p/go-libp2p/core/peer"
 )
 
@@ -49,7 +50,8 @@ func TestVerifC07Mesh(t *testing.T) {
 						fail(map[string]string{"kind": "mesh_for_unjoined_topic"}, nil, nil, "%s: mesh exists for %s which is not joined", where, tn)
 					}
 					for p := range mesh {
-						if _, ok := s.Peers[p]; !ok {
+						// connected = we have an outbound stream, or at least a live connection while our writer is being respawned
+						if _, ok := s.Peers[p]; !ok && w.nd.h.Network().Connectedness(p) != network.Connected {
 							fail(map[string]string{"kind": "mesh_member_not_connected"}, nil, nil, "%s: mesh member %s of %s is not a connected router peer", where, w.r.Name(p), tn)
 						}
 					}
